@@ -283,10 +283,127 @@ class GuardClauses(ast.NodeTransformer):
         return node
 
 
+class CompToLoop(ast.NodeTransformer):
+    """name = [elt for t in it if c]   ->   name = []; for t in it: (if c:) name.append(elt)
+    only for single-generator list comprehensions assigned to a plain name, whose loop variables occur nowhere else
+    in the enclosing function (a for loop leaks its variable, a comprehension does not)"""
+
+    def _names(self, node, ctx=None):
+        return [n.id for n in ast.walk(node) if isinstance(n, ast.Name) and (ctx is None or isinstance(n.ctx, ctx))]
+
+    def visit_FunctionDef(self, fn):
+        self.generic_visit(fn)
+        all_names = self._names(fn)
+
+        def rewrite(stmts):
+            out = []
+            for st in stmts:
+                for fld in ("body", "orelse", "finalbody"):
+                    sub = getattr(st, fld, None)
+                    if isinstance(sub, list) and sub and isinstance(sub[0], ast.stmt) and not isinstance(
+                            st, (ast.FunctionDef, ast.AsyncFunctionDef, ast.ClassDef)):
+                        setattr(st, fld, rewrite(sub))
+                for h in getattr(st, "handlers", []) or []:
+                    h.body = rewrite(h.body)
+                if isinstance(st, ast.Assign) and len(st.targets) == 1 and isinstance(st.targets[0], ast.Name) and \
+                        isinstance(st.value, ast.ListComp) and len(st.value.generators) == 1 and \
+                        not st.value.generators[0].is_async:
+                    g = st.value.generators[0]
+                    tvars = self._names(g.target)
+                    inside = self._names(st.value)
+                    tgt = st.targets[0].id
+                    if all(all_names.count(v) == inside.count(v) for v in tvars) and tgt not in inside and not any(
+                            isinstance(n, (ast.Lambda, ast.ListComp, ast.GeneratorExp, ast.SetComp, ast.DictComp))
+                            for n in ast.walk(st.value.elt)):
+                        app = ast.Expr(value=ast.Call(func=ast.Attribute(value=ast.Name(id=tgt, ctx=ast.Load()), attr="append",
+                                                                         ctx=ast.Load()), args=[st.value.elt], keywords=[]))
+                        body = [app]
+                        for c in reversed(g.ifs):
+                            body = [ast.If(test=c, body=body, orelse=[])]
+                        loop = ast.For(target=g.target, iter=g.iter, body=body, orelse=[])
+                        init = ast.Assign(targets=[ast.Name(id=tgt, ctx=ast.Store())], value=ast.List(elts=[], ctx=ast.Load()))
+                        for n_ in (init, loop):
+                            ast.copy_location(n_, st)
+                        out.extend([init, loop])
+                        continue
+                out.append(st)
+            return out
+
+        fn.body = rewrite(fn.body)
+        return fn
+
+
+class Delegate(ast.NodeTransformer):
+    """def m(self, a, b=1): BODY   ->   def m(self, a, b=1): return self._m__impl(a, b)  +  def _m__impl(self, a, b): BODY
+    for plain methods and module-level functions (no *args / **kwargs / keyword-only parameters, no generators, no
+    nested use of the function's own name, not abstract, not a dunder, not registered with singledispatch).  The
+    decorators (jit with static_argnums ...) stay on the public function; the implementation is traced inline."""
+
+    def _ok(self, fn, in_class):
+        a = fn.args
+        if a.vararg or a.kwarg or a.kwonlyargs or a.posonlyargs:
+            return False
+        if fn.name.startswith("__") or fn.name.endswith("__impl") or fn.name == "_":
+            return False
+        decs = [ast.unparse(d) for d in fn.decorator_list]
+        if any(("abstractmethod" in d) or ("register" in d) or ("singledispatch" in d) or ("classmethod" in d) or
+               ("staticmethod" in d) or ("property" in d) or ("defjvp" in d) or ("custom_jvp" in d) or ("contextmanager" in d)
+               for d in decs):
+            return False
+        own = [n for n in ast.walk(fn) if n is not fn]
+        if any(isinstance(n, (ast.Yield, ast.YieldFrom, ast.Global, ast.Nonlocal)) for n in own):
+            return False
+        if in_class and (not a.args or a.args[0].arg != "self"):
+            return False
+        body = fn.body
+        if len(body) == 1 and isinstance(body[0], (ast.Pass, ast.Raise)):
+            return False
+        if len(body) <= 2 and any(isinstance(b, ast.Raise) for b in body):
+            return False
+        return True
+
+    def _split(self, fn, in_class):
+        import copy
+        impl = copy.deepcopy(fn)
+        impl.name = ("_" if not fn.name.startswith("_") else "") + fn.name + "__impl"
+        impl.decorator_list = []
+        impl.returns = None
+        for a_ in impl.args.args:
+            a_.annotation = None
+        impl.args.defaults = []
+        params = [a_.arg for a_ in fn.args.args]
+        if in_class:
+            callee = ast.Attribute(value=ast.Name(id="self", ctx=ast.Load()), attr=impl.name, ctx=ast.Load())
+            args = [ast.Name(id=p_, ctx=ast.Load()) for p_ in params[1:]]
+        else:
+            callee = ast.Name(id=impl.name, ctx=ast.Load())
+            args = [ast.Name(id=p_, ctx=ast.Load()) for p_ in params]
+        doc = [fn.body[0]] if fn.body and isinstance(fn.body[0], ast.Expr) and isinstance(
+            getattr(fn.body[0], "value", None), ast.Constant) and isinstance(fn.body[0].value.value, str) else []
+        fn.body = doc + [ast.Return(value=ast.Call(func=callee, args=args, keywords=[]))]
+        return [fn, impl]
+
+    def _block(self, stmts, in_class):
+        out = []
+        for st in stmts:
+            if isinstance(st, ast.ClassDef):
+                st.body = self._block(st.body, True)
+                out.append(st)
+            elif isinstance(st, ast.FunctionDef) and self._ok(st, in_class):
+                out.extend(self._split(st, in_class))
+            else:
+                out.append(st)
+        return out
+
+    def visit_Module(self, node):
+        node.body = self._block(node.body, False)
+        return node
+
+
 def transform_module(src: str, kind: str) -> str:
     tree = ast.parse(src)
     tr = {"commute": CommuteConst, "augassign": AugToAssign, "rettemp": ReturnTemp, "threeaddr": ThreeAddress,
-          "swapbranches": SwapBranches, "guardclause": GuardClauses}[kind]()
+          "swapbranches": SwapBranches, "guardclause": GuardClauses, "comp2loop": CompToLoop, "delegate": Delegate}[kind]()
     tree = tr.visit(tree)
     ast.fix_missing_locations(tree)
     return ast.unparse(tree) + "\n"
@@ -301,7 +418,7 @@ def overlays(kind: str):
             new = ast.unparse(ast.parse(src)) + "\n"
         elif kind == "rename":
             new = rename_module(src)
-        elif kind in ("commute", "augassign", "rettemp", "threeaddr", "swapbranches", "guardclause"):
+        elif kind in ("commute", "augassign", "rettemp", "threeaddr", "swapbranches", "guardclause", "comp2loop", "delegate"):
             new = transform_module(src, kind)
         else:
             new = rename_module(src)
@@ -384,11 +501,11 @@ def mutants_under(kinds, pids):
 def main():
     if "--mutants" in sys.argv:
         sys.argv.remove("--mutants")
-        ALL_ = ("reformat", "rename", "commute", "augassign", "rettemp", "threeaddr", "swapbranches", "guardclause")
+        ALL_ = ("reformat", "rename", "commute", "augassign", "rettemp", "threeaddr", "swapbranches", "guardclause", "comp2loop", "delegate")
         kinds = [a for a in sys.argv[1:] if a in ALL_] or list(ALL_)
         pids = [a.upper() for a in sys.argv[1:] if a.upper().startswith("C") and a[1:].isdigit()] or [f"C{i:02d}" for i in range(1, 21)]
         return mutants_under(kinds, pids)
-    ALL = ("reformat", "rename", "commute", "augassign", "rettemp", "threeaddr", "swapbranches", "guardclause")
+    ALL = ("reformat", "rename", "commute", "augassign", "rettemp", "threeaddr", "swapbranches", "guardclause", "comp2loop", "delegate")
     kinds = [a for a in sys.argv[1:] if a in ALL] or list(ALL)
     pids = [a for a in sys.argv[1:] if a.upper().startswith("C") and a[1:].isdigit()] or [f"C{i:02d}" for i in range(1, 21)]
     rc = 0
